@@ -50,12 +50,29 @@ pub struct RecSpec {
 
 /// Run a real sender and record everything it emits.
 pub fn record(spec: &RecSpec) -> Result<Rec, String> {
-    let mut s = spec.sess.sender()?;
+    // the sender runs under the subject guard: a panic inside it is a verdict (the report turns an error text that
+    // starts with SUBJECT-PANIC into a violation), not a harness failure. The panicked sender is leaked.
+    match catch(|| record_inner(spec)) {
+        Ok(r) => r,
+        Err(p) => Err(format!("SUBJECT-PANIC: the sender panicked while the session was recorded: {} [session {}]", p, serde_json::to_string(spec).unwrap_or_default())),
+    }
+}
+
+fn record_inner(spec: &RecSpec) -> Result<Rec, String> {
+    let s = spec.sess.sender()?;
+    let mut s = std::mem::ManuallyDrop::new(s);
+    let r = record_with(&mut s, spec);
+    // (reached only without a panic)
+    unsafe { std::mem::ManuallyDrop::drop(&mut s) };
+    r
+}
+
+fn record_with(s: &mut flute::sender::Sender, spec: &RecSpec) -> Result<Rec, String> {
     let mut objs = Vec::new();
     for (i, o) in spec.objs.iter().enumerate() {
         let d = o.desc(None)?;
         let tl = d.transfer_length;
-        let toi = add_tallied(&mut s, o.prio, d, &spec.sess.oti).map_err(|e| format!("add_object: {}", e.0))?;
+        let toi = add_tallied(s, o.prio, d, &spec.sess.oti).map_err(|e| format!("add_object: {}", e.0))?;
         objs.push((toi, i, tl));
     }
     let mut pkts = Vec::new();
@@ -64,7 +81,7 @@ pub fn record(spec: &RecSpec) -> Result<Rec, String> {
         s.publish(at_ms(first)).map_err(|e| format!("publish: {}", e.0))?;
     }
     for ms in &spec.polls_ms {
-        if !drain(&mut s, at_ms(*ms), &mut pkts, 100_000) {
+        if !drain(s, at_ms(*ms), &mut pkts, 100_000) {
             return Err("sender not quiescent".into());
         }
     }
